@@ -44,6 +44,14 @@ structure StrictWeak (lt : α → α → Bool) : Prop where
   incomp_trans : ∀ a b c, lt a b = false → lt b a = false → lt b c = false → lt c b = false →
     lt a c = false ∧ lt c a = false
 
+/-- the three clauses of `StrictWeak`, evaluated on a finite sample of keys: a decidable check that a test of a user
+    comparator can run (`StrictWeak` itself quantifies over all keys) -/
+def strictWeakOn (lt : α → α → Bool) (xs : List α) : Bool :=
+  xs.all (fun a => !lt a a) &&
+  xs.all (fun a => xs.all fun b => xs.all fun c => !(lt a b && lt b c) || lt a c) &&
+  xs.all (fun a => xs.all fun b => xs.all fun c =>
+    !(!lt a b && !lt b a && !lt b c && !lt c b) || (!lt a c && !lt c a))
+
 /-- `operator==` of the key type agrees with the equivalence the comparator induces: two keys that are
     not ordered either way are the same key.  NO member of static_set / flat_set depends on it any more (the two
     that did — `static_set::find(key_type const&)` through `etl::find`, `flat_set::erase(key_type const&)` through
